@@ -466,6 +466,15 @@ def compile_ast(
         df = df.select(*left_col_names)
         right_df = right_df.select(*left_col_names)
 
+        if df.collect_schema() != right_df.collect_schema():
+            # The column types are compatible (checked by the verb) but not equal, e.g.
+            # an Int and a Float column: convert to the common type.
+            df = pl.concat([df, right_df], how="vertical_relaxed")
+            if nd.distinct:
+                df = df.unique()
+            name_in_df = {uid: name_in_df[uid] for uid in select}
+            return df, name_in_df, select, partition_by
+
         # Use pl.union if available (Polars >= 1.35), otherwise use pl.concat
         # pl.union is faster than pl.concat for union operations
         # distinct=True means UNION (remove duplicates), distinct=False means UNION ALL (keep duplicates)
